@@ -2,10 +2,14 @@ import AGV.Util.Sexp
 import AGV.Util.Judge
 import AGV.Model.HttpGet
 import AGV.Spec.HttpGet
+import AGV.Model.HttpGetBody
+import AGV.Spec.HttpGetBody
 
 open AGV AGV.Sexp
 open AGV.Spec.HttpGet
 open AGV.Model.HttpGet
+open AGV.Spec.HttpGetBody
+open AGV.Model.HttpGetBody
 
 namespace AGV.Drive.C35
 
@@ -85,6 +89,37 @@ def caseOf : Sexp → Option Case
     some ⟨integ, route, method, accept, body⟩
   | _ => none
 
+/-- a case of the stream `getbody` -/
+structure CaseX where
+  integ : Integ
+  route : Route
+  accept : Accept
+  x : ReqX
+
+def caseXOf : Sexp → Option CaseX
+  | .list [.atom "httpb", .atom i, .atom r, .atom _exec, .atom m, .atom a, q, .atom ct, .atom cl, b] => do
+    let integ ← integOf i
+    let route ← routeOf r
+    let method ← match m with
+      | "get" => some MethodX.get | "post" => some .post | "head" => some .head | "put" => some .put
+      | _ => none
+    let accept ← match a with | "plain" => some Accept.plain | "mixed" => some .mixed | _ => none
+    let qs ← match q with
+      | .atom "noq" => some QS.noq
+      | .atom "emptyq" => some .emptyq
+      | .atom "junk" => some .junk
+      | .list [.atom "qs", r] => (reqOf r).map .qs
+      | _ => none
+    let ct ← match ct with
+      | "json" => some CT.json | "gqlresp" => some .gqlresp | "multipart" => some .multipart
+      | "absent" => some .absent | _ => none
+    let clen ← match cl with | "cl" => some true | "nocl" => some false | _ => none
+    let payload ← match b with
+      | .atom "empty" => some none
+      | b => (bodyOf b).map some
+    some ⟨integ, route, accept, ⟨method, qs, ct, clen, payload⟩⟩
+  | _ => none
+
 -- ------------------------------------------------------------------ printing / reading an output
 
 def respSexp (r : Resp) : Sexp :=
@@ -138,7 +173,26 @@ def defectsOf (known : List String) : Defects :=
     poem := known.contains (findingId .poem), warp := known.contains (findingId .warp),
     rocket := known.contains (findingId .rocket) }
 
+/-- stream `getbody`: same triage, the property is `getSafeX` -/
+def judgeX (known : List String) (c : CaseX) (impl : String) : JudgeOut :=
+  let spec := render (outSexp (handleX srcBranches Defects.none c.integ c.route c.accept c.x))
+  let modelK := render (outSexp (handleX srcBranches (defectsOf known) c.integ c.route c.accept c.x))
+  if impl = spec then .ok
+  else
+    let safe := match (parse impl).bind outOf with
+      | some o => getSafeX c.x o
+      | none => false
+    if impl = modelK then
+      if safe then .ok
+      else if (defectsOf known).unmarked c.integ then .known (findingId c.integ) modelK spec
+      else .viol modelK spec
+    else if safe then .tie modelK spec
+    else .viol modelK spec
+
 def judge (known : List String) (case impl : String) : JudgeOut :=
+  match (parse case).bind caseXOf with
+  | some c => judgeX known c impl
+  | none =>
   match (parse case).bind caseOf with
   | none => .viol "unreadable case" ""
   | some c =>
